@@ -162,3 +162,61 @@ Print Assumptions C02_session_handlers.
 Print Assumptions C02_in_order.
 Print Assumptions C02_session_alive.
 Print Assumptions C02_recover_needed.
+
+(* generated-code tie *)
+(* Gen/GoFuncs.v holds the Gallina TRANSLATION of the Go bodies of the Line methods Text,
+   Public and Target, regenerated from the source on every run (translator/go2coq.go; the
+   fields a method reads are its parameters); they are equal to the models text, public,
+   target — for every line, panics included (Proofs/GenEqLine.v). *)
+From Verif Require Import GoFuncs GenEqLine.
+Theorem gen_C02_Text : forall l, go_client_Line_Text (l_args l) = text l.
+Proof. exact go_Line_Text_eq. Qed.
+Theorem gen_C02_Public : forall l, go_client_Line_Public (l_args l) (l_cmd l) = public l.
+Proof. exact go_Line_Public_eq. Qed.
+Theorem gen_C02_Target : forall l,
+  go_client_Line_Target (l_args l) (l_cmd l) (l_nick l) = target l.
+Proof. exact go_Line_Target_eq. Qed.
+Print Assumptions gen_C02_Text.
+Print Assumptions gen_C02_Public.
+Print Assumptions gen_C02_Target.
+
+(* ---------- the composed client (Model/Client.v; all of it in Props/ClientCompose.v) ----------
+   The session part of C02 above speaks about ARBITRARY handlers under the Recover wrapper.  The
+   composition instantiates them with the REAL internal handler bodies (own nick, registration,
+   PING, CTCP, capability negotiation / SASL, the 13 state handlers) over the product of their
+   states; check C02's case kind "transcript" compares that model with the real client line for
+   line.  Re-exported here so that they are obligations of this check (std++ side: Required,
+   not Imported). *)
+From Verif Require Client ClientProofs.
+
+(* no raw line, in no state, makes a panic escape: every handler-body panic is contained *)
+Theorem C02_client_line_total : forall s raw, Client.client_line_res s raw <> Panic.
+Proof. exact ClientProofs.client_line_total. Qed.
+
+(* one output group per received line, in order: nothing is dropped, nothing stops the loop *)
+Theorem C02_client_session_complete : forall s raws,
+  length (Client.session_out s raws) = length raws.
+Proof. intros s raws. apply ClientProofs.client_session_length. Qed.
+
+(* "lines that follow it are still processed in order": after ANY lines [before] (hostile or
+   not, any state, tracking on or off) a server "PING :tok" is answered by exactly "PONG :tok"
+   at its own position of the output, and what follows is processed from an unchanged state *)
+Theorem C02_client_pong_in_order : forall s before after src tok,
+  LineSend.src_ok src = true -> forallb LineSend.trailing_byte tok = true ->
+  let ping := LineSend.wire (Register.ping_trailing src tok) in
+  Client.session_out s (before ++ ping :: after)
+  = Client.session_out s before ++ [Commands.s_PONG ++ Commands.s_sp_colon ++ tok]
+    :: Client.session_out (Client.session_state s before) after
+  /\ Client.session_state s (before ++ [ping]) = Client.session_state s before.
+Proof. exact ClientProofs.pong_in_order. Qed.
+
+(* without the wrapper the same composed client dies on a bare "PING" *)
+Theorem C02_client_recover_needed :
+  Client.client_line_with Client.unprotected_c
+    (Client.client0 ClientProofs.x_cfg [118]%N [105]%N [110]%N false) ClientProofs.x_ping = Panic.
+Proof. exact (proj1 ClientProofs.client_recover_needed). Qed.
+
+Print Assumptions C02_client_line_total.
+Print Assumptions C02_client_session_complete.
+Print Assumptions C02_client_pong_in_order.
+Print Assumptions C02_client_recover_needed.
